@@ -93,12 +93,46 @@ func liveScenario(c *core.Ctx, r *core.Result, idx int, rng *rand.Rand) string {
 		return "inconclusive"
 	}
 	defer eng.Stop()
+	next := 1
+	if rng.Intn(2) == 0 {
+		// an earlier connection of the same session, ended abruptly: the keep-alive obligations hold on every connection
+		kind += "+second-connection"
+		p0, err := live.Dial(port, rec, begin, "P"+tag, "E"+tag)
+		if err != nil {
+			r.Inconcl("live run %d: %v", idx, err)
+			return "inconclusive"
+		}
+		p0.Logon(1)
+		if _, ok := p0.WaitFor(live.IsType("A"), 15*time.Second); !ok {
+			p0.Close()
+			r.Inconcl("live run %d: no Logon reply on the first connection", idx)
+			return "inconclusive"
+		}
+		next = p0.Next()
+		p0.Close()
+		// the engine must have noticed the end of the first connection before the next one is offered
+		deadline := time.Now().Add(15 * time.Second)
+		for time.Now().Before(deadline) {
+			seen := false
+			for _, e := range rec.Events() {
+				if e.Kind == "OnLogout" {
+					seen = true
+				}
+			}
+			if seen {
+				break
+			}
+			time.Sleep(10 * time.Millisecond)
+		}
+	}
 	p, err := live.Dial(port, rec, begin, "P"+tag, "E"+tag)
 	if err != nil {
 		r.Inconcl("live run %d: %v", idx, err)
 		return "inconclusive"
 	}
 	defer p.Close()
+	p.SetNext(next)
+	mark := rec.Len() // what the earlier connection left in the record is not about this one
 	r.Eval(1)
 	p.Logon(1)
 	lastInbound := time.Now().UTC()
@@ -141,7 +175,7 @@ func liveScenario(c *core.Ctx, r *core.Result, idx int, rng *rand.Rand) string {
 			prevOut = ts
 		}
 	}
-	switch strings.TrimSuffix(kind, "+slow-callback") {
+	switch strings.TrimSuffix(strings.TrimSuffix(kind, "+second-connection"), "+slow-callback") {
 	case "idle-answering":
 		// the peer only answers TestRequests (late); the engine must heartbeat on its own
 		ctl := control(hbi)
@@ -195,7 +229,7 @@ func liveScenario(c *core.Ctx, r *core.Result, idx int, rng *rand.Rand) string {
 				break loop2
 			default:
 				done := false
-				for _, e := range rec.Events() {
+				for _, e := range rec.Events()[mark:] {
 					if e.Kind == "closed" {
 						done = true
 					}
@@ -228,7 +262,7 @@ func liveScenario(c *core.Ctx, r *core.Result, idx int, rng *rand.Rand) string {
 		}
 		time.Sleep(30 * time.Millisecond)
 		lo := false
-		for _, e := range rec.Events() {
+		for _, e := range rec.Events()[mark:] {
 			if e.Kind == "OnLogout" {
 				lo = true
 			}
